@@ -26,6 +26,9 @@ const (
 type Seq struct {
 	Len string
 	At  func(i string) string
+	// Cuts: absolute end offsets of the (flattened) parts of a concatenation, used to split a
+	// quantified goal over the sequence into one obligation per part.
+	Cuts []string
 }
 
 type SV struct {
@@ -631,6 +634,47 @@ func (env *Env) callExpr(n *ast.CallExpr) SV {
 			return svBool(fmt.Sprintf("(forall ((%s Int)) %s)", q, implies(rng, body)))
 		}
 		return svBool(fmt.Sprintf("(exists ((%s Int)) %s)", q, and(rng, body)))
+	case "forallcut":
+		// forallcut(i, lo, hi, S, idx, body): forall(i, lo, hi, body), proved as one obligation per
+		// part of the concatenation S, the part being the one the index idx falls in.
+		id := n.Args[0].(*ast.Ident).Name
+		qcount++
+		q := fmt.Sprintf("%s_q%d", id, qcount)
+		lo, hi := env.int(n.Args[1]), env.int(n.Args[2])
+		ch := env.child()
+		ch.names[id] = svInt(q)
+		ch.bound = map[string]bool{q: true}
+		for k := range env.bound {
+			ch.bound[k] = true
+		}
+		sq := env.toSeq(arg(3))
+		idx := ch.int(n.Args[4])
+		body := x.evalBool(ch, n.Args[5])
+		rng := and(sx("<=", lo, q), sx("<", q, hi))
+		whole := fmt.Sprintf("(forall ((%s Int)) %s)", q, implies(rng, body))
+		if len(sq.Cuts) > 1 {
+			var parts []string
+			prev := ""
+			for k, c := range sq.Cuts {
+				seg := sx("<", idx, c)
+				if k > 0 {
+					seg = and(sx("<=", prev, idx), seg)
+				}
+				if k == len(sq.Cuts)-1 {
+					seg = "true"
+					if k > 0 {
+						seg = sx("<=", prev, idx)
+					}
+				}
+				prev = c
+				parts = append(parts, fmt.Sprintf("(forall ((%s Int)) %s)", q, implies(and(rng, seg), body)))
+			}
+			if x.cutParts == nil {
+				x.cutParts = map[string][]string{}
+			}
+			x.cutParts[whole] = parts
+		}
+		return svBool(whole)
 	case "cat":
 		var parts []*Seq
 		for i := range n.Args {
@@ -871,11 +915,19 @@ func (env *Env) callExpr(n *ast.CallExpr) SV {
 func catSeq(x *Exec, parts []*Seq) *Seq {
 	var ends []string
 	total := "0"
+	var cuts []string
 	for _, p := range parts {
+		start := total
 		total = x.vc.S.def("catend", ic(add(total, p.Len))).T
 		ends = append(ends, total)
+		if n := len(p.Cuts); n > 1 {
+			for _, c := range p.Cuts[:n-1] {
+				cuts = append(cuts, add(start, c))
+			}
+		}
+		cuts = append(cuts, total)
 	}
-	return &Seq{Len: total, At: func(i string) string {
+	return &Seq{Len: total, Cuts: cuts, At: func(i string) string {
 		t := "0"
 		for k := len(parts) - 1; k >= 0; k-- {
 			start := "0"
